@@ -83,7 +83,7 @@ func (d *Doc) EffectiveSyms() [][2]int {
 var Alphabet = []rune{'a', 'b', 'c', 'A', 'B', '_', '1', ' ', '\n', '.', '(', 'é', 'ß', '中', '😀'}
 
 // ExtraRunes can occur in names, markers and patterns.
-var ExtraRunes = []rune("NOT-INDEXED: contains binary content too few trigrams/dxyzZmtgoMDrepos0123456789hHEADvlkfuw-CcpbBi\r\tTXYKkSsIjJqQWFGLOPRUV")
+var ExtraRunes = []rune("日本語NOT-INDEXED: contains binary content too few trigrams/dxyzZmtgoMDrepos0123456789hHEADvlkfuw-CcpbBi\r\tTXYKkSsIjJqQWFGLOPRUV")
 
 // FoldEvent lists the case-fold orbits of all runes the generators use.
 func FoldEvent() M {
